@@ -3350,7 +3350,8 @@ XPath::stepPattern(
             // Neither an attribute nor the root is the child of a
             // node, so a child step, even node(), matches neither.
             if(nodeType != XalanNode::ATTRIBUTE_NODE &&
-               nodeType != XalanNode::DOCUMENT_NODE)
+               nodeType != XalanNode::DOCUMENT_NODE &&
+               nodeType != XalanNode::DOCUMENT_FRAGMENT_NODE)
             {
                 opPos += 3;
 
